@@ -4272,7 +4272,14 @@ class Padded(Subconstruct):
             raise SizeofError("cannot calculate size, key not found in context", path=path)
 
     def _emitparse(self, code):
-        return f"({self.subcon._compileparse(code)}, io.read(({self.length})-({self.subcon.sizeof()}) ))[0]"
+        code.append("""
+            def parse_padded(io, length, func):
+                position1 = io.tell()
+                obj = func()
+                io.read(length - (io.tell() - position1))
+                return obj
+        """)
+        return f"parse_padded(io, {self.length}, lambda: {self.subcon._compileparse(code)})"
 
     def _emitbuild(self, code):
         return f"({self.subcon._compilebuild(code)}, io.write({repr(self.pattern)}*(({self.length})-({self.subcon.sizeof()})) ))[0]"
@@ -4348,7 +4355,14 @@ class Aligned(Subconstruct):
             raise SizeofError("cannot calculate size, key not found in context", path=path)
 
     def _emitparse(self, code):
-        return f"({self.subcon._compileparse(code)}, io.read(-({self.subcon.sizeof()}) % ({self.modulus}) ))[0]"
+        code.append("""
+            def parse_aligned(io, modulus, func):
+                position1 = io.tell()
+                obj = func()
+                io.read(-(io.tell() - position1) % modulus)
+                return obj
+        """)
+        return f"parse_aligned(io, {self.modulus}, lambda: {self.subcon._compileparse(code)})"
 
     def _emitbuild(self, code):
         return f"({self.subcon._compilebuild(code)}, io.write({repr(self.pattern)}*(-({self.subcon.sizeof()}) % ({self.modulus}))) )[0]"
